@@ -163,9 +163,19 @@ class Fn(object):
                 return [], self.inputs[key][0], self.inputs[key][1]
         if self.tr and isinstance(e, ast.Name) and e.id in self.tr['ignore_locals']:
             raise Unsupported('the ignored local %s flows into a kept expression' % e.id)
+        if isinstance(e, ast.BinOp) and isinstance(e.op, ast.Mult):
+            b1, a, ta = self.expr(e.left, env)
+            b2, c, tc = self.expr(e.right, env)
+            if ta != 'V' or tc != 'V':
+                raise Unsupported('arithmetic on non-values')
+            n = self.fresh()
+            return b1 + b2 + [(n, '(V.mul %s %s)' % (a, c))], n, 'V'
         if isinstance(e, ast.BinOp) and isinstance(e.op, (ast.Sub, ast.Add)):
             b1, a, ta = self.expr(e.left, env)
             b2, c, tc = self.expr(e.right, env)
+            if isinstance(e.op, ast.Add) and ta.startswith('List ') and tc.startswith('List ') \
+                    and (ta == tc or 'List ?' in (ta, tc)):
+                return b1 + b2, '(%s ++ %s)' % (a, c), tc if ta == 'List ?' else ta    # concatenation of lists
             if ta != 'V' or tc != 'V':
                 raise Unsupported('arithmetic on non-values')
             n = self.fresh()
@@ -200,6 +210,12 @@ class Fn(object):
             return [], '(V.dict 0 false)', 'V'          # the empty dict literal
         if isinstance(e, ast.List) and not e.elts:
             return [], '[]', 'List ?'                    # typed by the field it is assigned to
+        if isinstance(e, ast.List):
+            parts = [self.expr(x_, env) for x_ in e.elts]
+            if len({ty_ for (_b, _t, ty_) in parts}) != 1:
+                raise Unsupported('list literal of mixed types')
+            return [b_ for (bs_, _t, _y) in parts for b_ in bs_], '[%s]' % ', '.join(t_ for (_b, t_, _y) in parts), \
+                'List %s' % parts[0][2]
         if isinstance(e, ast.Name):
             if e.id in env:
                 return [], lean_name(e.id), env[e.id]
@@ -255,6 +271,17 @@ class Fn(object):
                 return b + [(n, '(V.sliceDropLast %s)' % t)], n, 'V'
             raise Unsupported('subscript %s' % ast.unparse(s))
         if isinstance(e, ast.Compare):
+            if len(e.ops) == 2 and all(isinstance(o_, (ast.Lt, ast.LtE, ast.Gt, ast.GtE)) for o_ in e.ops):
+                # a < b < c: b is evaluated once, c only if the first comparison holds
+                b1, a, ta = self.expr(e.left, env)
+                b2, m, tm = self.expr(e.comparators[0], env)
+                b3, c, tc = self.expr(e.comparators[1], env)
+                if (ta, tm, tc) != ('V', 'V', 'V') or b3:
+                    raise Unsupported('chained comparison of non-values')
+                nm = {ast.Lt: 'lt', ast.LtE: 'le', ast.Gt: 'gt', ast.GtE: 'ge'}
+                n1, n2 = self.fresh(), self.fresh()
+                return b1 + b2 + [(n1, '(V.%s %s %s)' % (nm[type(e.ops[0])], a, m)),
+                                  (n2, '(if %s then (V.%s %s %s) else some false)' % (n1, nm[type(e.ops[1])], m, c))], n2, 'Bool'
             if len(e.ops) != 1:
                 raise Unsupported('chained comparison')
             op = e.ops[0]
@@ -460,6 +487,19 @@ class Fn(object):
 
     # ------------------------------------------------------------ trace units
     def reads_ignored(self, node):
+        if self.inputs:
+            # a sub-expression that is a declared input is not read any further
+            def walk(n_):
+                if isinstance(n_, ast.expr) and ast.unparse(n_) in self.inputs:
+                    return
+                yield n_
+                for c_ in ast.iter_child_nodes(n_):
+                    for x_ in walk(c_):
+                        yield x_
+            nodes = list(walk(node))
+            return any(isinstance(n_, ast.Name) and n_.id in self.tr['ignore_locals'] for n_ in nodes) or \
+                any(isinstance(n_, ast.Attribute) and isinstance(n_.value, ast.Name) and n_.value.id == 'self'
+                    and n_.attr in self.tr['ignore_fields'] for n_ in nodes)
         return any(isinstance(n_, ast.Name) and n_.id in self.tr['ignore_locals'] for n_ in ast.walk(node)) or \
             any(isinstance(n_, ast.Attribute) and isinstance(n_.value, ast.Name) and n_.value.id == 'self'
                 and n_.attr in self.tr['ignore_fields'] for n_ in ast.walk(node))
@@ -469,6 +509,8 @@ class Fn(object):
         if isinstance(s, (ast.Assign, ast.AugAssign)):
             tgs = s.targets if isinstance(s, ast.Assign) else [s.target]
             return all((isinstance(t, ast.Name) and t.id in self.tr['ignore_locals']) or
+                       (isinstance(t, ast.Subscript) and isinstance(t.value, ast.Name) and t.value.id in self.tr['ignore_locals']
+                        and ast.unparse(t) not in self.tr.get('subscript_events', {})) or
                        (isinstance(t, ast.Attribute) and isinstance(t.value, ast.Name) and t.value.id == 'self'
                         and t.attr in self.tr['ignore_fields']) for t in tgs)
         if isinstance(s, ast.Expr) and isinstance(s.value, ast.Call):
@@ -479,15 +521,19 @@ class Fn(object):
             return s.name in self.tr['ignore_locals']
         return False
 
+    def is_assigned_input(self, s):
+        return isinstance(s, ast.Assign) and len(s.targets) == 1 and isinstance(s.targets[0], (ast.Tuple, ast.Name)) \
+            and isinstance(s.value, ast.Call) and ast.unparse(s.value.func) in self.tr.get('assigned_inputs', {})
+
     def trace_stmt(self, s, rest, env, ret, self_ty, indent):
         pad = '  ' * indent
-        if self.droppable(s):
+        if self.droppable(s) and not self.is_assigned_input(s):
             return self.block(rest, env, ret, self_ty, indent)
-        if isinstance(s, ast.Assign) and len(s.targets) == 1 and isinstance(s.targets[0], ast.Tuple) \
-                and isinstance(s.value, ast.Call) and ast.unparse(s.value.func) in self.tr.get('assigned_inputs', {}):
-            # (a, b, _) = declared_call(...): the targets are inputs of the translation
+        if self.is_assigned_input(s):
+            # (a, b, _) = declared_call(...) / a = declared_call(...): the targets are inputs of the translation
             decl = self.tr['assigned_inputs'][ast.unparse(s.value.func)]
-            names = [t.id if isinstance(t, ast.Name) else None for t in s.targets[0].elts]
+            tgs_ = s.targets[0].elts if isinstance(s.targets[0], ast.Tuple) else [s.targets[0]]
+            names = [t.id if isinstance(t, ast.Name) else None for t in tgs_]
             if names != list(decl):
                 raise Unsupported('targets of %s are %s, spec says %s' % (ast.unparse(s.value.func), names, list(decl)))
             env2 = dict(env)
@@ -495,7 +541,16 @@ class Fn(object):
                 if ty_ != 'Opaque':
                     env2[n_] = ty_
             ev_ = self.tr.get('assigned_input_events', {}).get(ast.unparse(s.value.func))
-            return (pad + 'let trace := trace ++ [Event.%s]\n' % ev_ if ev_ else '') + self.block(rest, env2, ret, self_ty, indent)
+            go_ = (pad + 'let trace := trace ++ [Event.%s]\n' % ev_ if ev_ else '') + self.block(rest, env2, ret, self_ty, indent)
+            ri_ = self.tr.get('raising_inputs', {}).get(ast.unparse(s.value.func))
+            if ri_:
+                # the declared call may raise (an input): the exception leaves the function as the last event
+                if self.in_loop:
+                    raise Unsupported('a raising input inside a loop')
+                return pad + 'if %s then\n%s  some (trace ++ [Event.%s])\n%selse\n%s' % (
+                    lean_name(ri_['param']), pad, ri_['event'], pad,
+                    '\n'.join('  ' + l_ for l_ in go_.split('\n')))
+            return go_
         if isinstance(s, ast.Assign) and len(s.targets) == 1 and isinstance(s.targets[0], ast.Attribute) \
                 and ast.unparse(s.targets[0]) in self.tr.get('attr_events', {}):
             ev = self.tr['attr_events'][ast.unparse(s.targets[0])]
@@ -518,11 +573,40 @@ class Fn(object):
             if self.in_loop:
                 raise Unsupported('raise inside a loop')
             return pad + 'let trace := trace ++ [Event.%s]\n' % self.tr['raise_events'][s.exc.func.id] + pad + 'some trace'
+        if isinstance(s, ast.Assign) and len(s.targets) == 1 and isinstance(s.targets[0], ast.Subscript) \
+                and ast.unparse(s.targets[0]) in self.tr.get('subscript_events', {}):
+            # x[key] = ... on a declared entry: an event (the value is not looked at)
+            return pad + 'let trace := trace ++ [Event.%s]\n' % self.tr['subscript_events'][ast.unparse(s.targets[0])] + \
+                self.block(rest, env, ret, self_ty, indent)
+        if isinstance(s, ast.Raise) and isinstance(s.exc, ast.Name) and s.exc.id in self.tr.get('raise_events', {}):
+            if self.in_loop:                                  # raise <declared local>
+                raise Unsupported('raise inside a loop')
+            return pad + 'let trace := trace ++ [Event.%s]\n' % self.tr['raise_events'][s.exc.id] + pad + 'some trace'
+        if isinstance(s, ast.Expr) and isinstance(s.value, ast.Call) and isinstance(s.value.func, ast.Attribute) \
+                and s.value.func.attr == 'extend' and isinstance(s.value.func.value, ast.Name) \
+                and env.get(s.value.func.value.id, '').startswith('List ') and len(s.value.args) == 1 and not s.value.keywords:
+            # xs.extend(ys) on a local list
+            x_ = s.value.func.value.id
+            b_, t_, ty_ = self.expr(s.value.args[0], env)
+            if ty_ != env[x_]:
+                raise Unsupported('%s.extend with a %s' % (x_, ty_))
+            if self.in_loop:
+                raise Unsupported('extend inside a loop')
+            return self.wrap(b_, pad + 'let %s := %s ++ %s\n' % (lean_name(x_), lean_name(x_), t_) +
+                             self.block(rest, env, ret, self_ty, indent), pad)
         if isinstance(s, ast.With):
             # with <declared lock>: held to the end of the function (nothing may follow the statement)
             if len(s.items) != 1 or s.items[0].optional_vars is not None \
                     or ast.unparse(s.items[0].context_expr) not in self.tr.get('lock_events', {}):
                 raise Unsupported('with %s' % ', '.join(ast.unparse(i_) for i_ in s.items))
+            rel_ = self.tr.get('lock_release_events', {}).get(ast.unparse(s.items[0].context_expr))
+            if rel_ and not self.in_loop:
+                # a region inside the function: no statement of it may leave the function; released at its end
+                if any(isinstance(n_, (ast.Return, ast.Raise, ast.Break, ast.Continue)) for x_ in s.body for n_ in ast.walk(x_)):
+                    raise Unsupported('a return / raise inside the region of %s' % ast.unparse(s.items[0].context_expr))
+                marker = ast.Expr(value=ast.Call(func=ast.Name(id='__release__' + rel_, ctx=ast.Load()), args=[], keywords=[]))
+                return pad + 'let trace := trace ++ [Event.%s]\n' % self.tr['lock_events'][ast.unparse(s.items[0].context_expr)] + \
+                    self.block(list(s.body) + [marker] + rest, env, ret, self_ty, indent)
             if rest or self.in_loop:
                 raise Unsupported('statements after the region of %s' % ast.unparse(s.items[0].context_expr))
             return pad + 'let trace := trace ++ [Event.%s]\n' % self.tr['lock_events'][ast.unparse(s.items[0].context_expr)] + \
@@ -531,25 +615,63 @@ class Fn(object):
             raise Unsupported('an `if` that tests an ignored name contains a kept statement')
         if isinstance(s, (ast.Continue, ast.Break)):
             raise Unsupported('%s in a trace unit' % type(s).__name__.lower())
+        if isinstance(s, ast.Pass):
+            return self.block(rest, env, ret, self_ty, indent)
+        if isinstance(s, ast.Expr) and isinstance(s.value, ast.Call) and isinstance(s.value.func, ast.Name) \
+                and s.value.func.id.startswith('__release__'):
+            return pad + 'let trace := trace ++ [Event.%s]\n' % s.value.func.id[len('__release__'):] + \
+                self.block(rest, env, ret, self_ty, indent)
+        if isinstance(s, ast.For) and ast.unparse(s.iter) in self.tr.get('loop_events', {}):
+            # a declared loop as one event: its body is not looked at, and may not leave the loop or the function
+            if s.orelse or any(isinstance(n_, (ast.Return, ast.Raise, ast.Break)) for x_ in s.body for n_ in ast.walk(x_)):
+                raise Unsupported('the declared loop over %s leaves the loop' % ast.unparse(s.iter))
+            return pad + 'let trace := trace ++ [Event.%s]\n' % self.tr['loop_events'][ast.unparse(s.iter)] + \
+                self.block(rest, env, ret, self_ty, indent)
         if isinstance(s, ast.Try):
+            if self.tr.get('refuse_try'):
+                raise Unsupported('a try statement in a unit declared to have none')
+            tf = self.tr.get('try_finally')
+            if tf and s.finalbody and not s.handlers and not s.orelse:
+                # try: <one assigned input> finally: <f>: whether the body raises is an input; <f> runs in both
+                # cases, then the exception propagates (a final event) or the function goes on
+                if len(s.body) != 1 or not self.is_assigned_input(s.body[0]) or self.in_loop:
+                    raise Unsupported('try ... finally whose body is not one declared call')
+                go_on = self.block(list(s.body) + list(s.finalbody) + rest, env, ret, self_ty, indent + 1)
+                saved_fall = self.fall
+                self.fall = 'some (trace ++ [Event.%s])' % tf['event']
+                # the assigned input is the first event; its targets stay unbound
+                ev_ = self.tr.get('assigned_input_events', {}).get(ast.unparse(s.body[0].value.func))
+                prop = ('  ' * (indent + 1) + 'let trace := trace ++ [Event.%s]\n' % ev_ if ev_ else '') + \
+                    self.block(list(s.finalbody), env, ret, self_ty, indent + 1)
+                self.fall = saved_fall
+                return pad + 'if %s then\n%s\n%selse\n%s' % (lean_name(tf['param']), prop, pad, go_on)
             if s.finalbody or s.orelse:
                 raise Unsupported('try with else / finally')
             th = self.tr.get('try_handlers', {})
             if th:
+                is_event = lambda x_: isinstance(x_, ast.Expr) and isinstance(x_.value, ast.Call) \
+                    and ast.unparse(x_.value.func) in self.tr['events']
+                kept_ = [x_ for x_ in s.body if self.is_assigned_input(x_) or is_event(x_) or not self.droppable(x_)]
+                if len(kept_) > 1 or any(not (self.is_assigned_input(x_) or is_event(x_)) for x_ in kept_):
+                    raise Unsupported('a try with a declared handler has a body of more than ignored calls and one declared call')
+                # an event call that raises has happened; the targets of an assigned input stay unbound
+                before = [x_ for x_ in kept_ if is_event(x_)]
                 # declared handlers: whether the body raises that exception is an input; the handler must end the function
                 if len(s.handlers) != 1 or not isinstance(s.handlers[0].type, ast.Name) or s.handlers[0].type.id not in th:
                     raise Unsupported('try with handlers other than the declared %s' % sorted(th))
                 h = s.handlers[0]
-                if not isinstance(h.body[-1], (ast.Raise, ast.Return)):
-                    raise Unsupported('the handler of %s does not end the function' % h.type.id)
                 if h.name:
                     self.tr['ignore_locals'].add(h.name)
+                # a handler that does not end the function goes on with the statements after the try
+                tail = [] if isinstance(h.body[-1], (ast.Raise, ast.Return)) else rest
+                if tail and self.in_loop:
+                    raise Unsupported('a handler inside a loop that does not end the function')
                 return pad + 'if %s then\n%s\n%selse\n%s' % (
-                    lean_name(th[h.type.id]), self.block(list(h.body), env, ret, self_ty, indent + 1), pad,
+                    lean_name(th[h.type.id]), self.block(before + list(h.body) + tail, env, ret, self_ty, indent + 1), pad,
                     self.block(list(s.body) + rest, env, ret, self_ty, indent + 1))
             # only the try body: an exception is `none` in any case
             return self.block(list(s.body) + rest, env, ret, self_ty, indent)
-        if isinstance(s, ast.AugAssign) and isinstance(s.target, ast.Name) and isinstance(s.op, (ast.Sub, ast.Add)):
+        if isinstance(s, ast.AugAssign) and isinstance(s.target, ast.Name) and isinstance(s.op, (ast.Sub, ast.Add, ast.Mult)):
             new = ast.Assign(targets=[s.target], value=ast.BinOp(left=ast.Name(id=s.target.id, ctx=ast.Load()),
                                                                    op=s.op, right=s.value))
             return self.block([new] + rest, env, ret, self_ty, indent)
@@ -711,6 +833,10 @@ class Fn(object):
                     t, lean_name(x), inner, after)
                 return self.wrap(b, term, pad)
             raise Unsupported('for loop of this shape')
+        if isinstance(s, ast.AugAssign) and isinstance(s.target, ast.Name) and isinstance(s.op, (ast.Sub, ast.Add, ast.Mult)):
+            new = ast.Assign(targets=[s.target], value=ast.BinOp(left=ast.Name(id=s.target.id, ctx=ast.Load()),
+                                                                   op=s.op, right=s.value))
+            return self.block([new] + rest, env, ret, self_ty, indent)
         if isinstance(s, ast.Assert):
             b, t = self.cond(s.test, env)
             body = pad + 'if %s then\n%s\n%selse\n%s  none' % (t, self.block(rest, env, ret, self_ty, indent + 1), pad, pad)
@@ -968,8 +1094,10 @@ def translate(spec, repo):
             for decl in u.get('assigned_inputs', {}).values():
                 ip += [(n_, ty_) for n_, ty_ in decl.items() if ty_ != 'Opaque' and n_ is not None]
             ip += [(p_, 'Bool') for p_ in u.get('try_handlers', {}).values()]
-            trace_units['self.' + u['name']] = {
-                'lean': '%s_%s' % (cls_name(u['class']), u['name'].lstrip('_')),
+            if u.get('try_finally'):
+                ip.append((u['try_finally']['param'], 'Bool'))
+            trace_units[('self.' if u.get('class') else '') + u['name']] = {
+                'lean': ('%s_%s' % (cls_name(u['class']), u['name'].lstrip('_'))) if u.get('class') else lean_name(u['name'].lstrip('_')),
                 'types': [t for (_n, t) in u['params'].items() if t != 'Opaque'],
                 'all_types': [t for (_n, t) in u['params'].items()],
                 'extra': [lean_name(n_) for (n_, _t) in ip], 'extra_typed': ip}
@@ -1085,9 +1213,10 @@ def translate(spec, repo):
             out.append('def %s_init %s : Option %s :=\n%s\n' % (
                 cls_name(cls), signature([], u['params']), cls_name(cls), body))
         elif kind == 'trace':
-            want = ['self'] + list(u['params'])
+            want = (['self'] if u.get('class') else []) + list(u['params'])
             if got != want:
-                raise Unsupported('signature of %s.%s is %s, spec says %s' % (u['class'], u['name'], got, want))
+                raise Unsupported('signature of %s.%s is %s, spec says %s' % (u.get('class'), u['name'], got, want))
+            own_key = ('self.' if u.get('class') else '') + u['name']
             table, iparams = unit_inputs(u)
             tr = Fn(spec, records, funcs, dict(ctx, cls=u.get('class'), inputs=table, trace={
                 'events': events, 'ignore_locals': set(u.get('ignore_locals', [])),
@@ -1096,7 +1225,11 @@ def translate(spec, repo):
                 'return_events': u.get('return_events', {}), 'raise_events': u.get('raise_events', {}),
                 'lock_events': u.get('lock_events', {}), 'try_handlers': u.get('try_handlers', {}),
                 'assigned_input_events': u.get('assigned_input_events', {}),
-                'units': dict((k_, v_) for k_, v_ in trace_units.items() if k_ != 'self.' + u['name'])}))
+                'try_finally': u.get('try_finally'), 'refuse_try': u.get('refuse_try', False),
+                'subscript_events': u.get('subscript_events', {}), 'loop_events': u.get('loop_events', {}),
+                'raising_inputs': u.get('raising_inputs', {}),
+                'lock_release_events': u.get('lock_release_events', {}),
+                'units': dict((k_, v_) for k_, v_ in trace_units.items() if k_ != own_key)}))
             env = dict((p_, t) for p_, t in u['params'].items() if t != 'Opaque')
             for decl in u.get('assigned_inputs', {}).values():
                 for n_, ty_ in decl.items():
@@ -1106,8 +1239,14 @@ def translate(spec, repo):
                         tr.tr['ignore_locals'].add(n_)
             for p_ in u.get('try_handlers', {}).values():
                 iparams.append((p_, 'Bool'))
+            if u.get('try_finally'):
+                iparams.append((u['try_finally']['param'], 'Bool'))
+            for d_ in u.get('raising_inputs', {}).values():
+                iparams.append((d_['param'], 'Bool'))
             for n_ in ast.walk(fn):                      # the inputs of the trace units it calls are its inputs too
-                if isinstance(n_, ast.Call) and ast.unparse(n_.func) in trace_units and ast.unparse(n_.func) != 'self.' + u['name']:
+                if isinstance(n_, ast.Call) and ast.unparse(n_.func) in trace_units and ast.unparse(n_.func) != own_key \
+                        and ast.unparse(n_.func) not in u.get('assigned_inputs', {}) \
+                        and ast.unparse(n_) not in u.get('return_events', {}):
                     for pt in trace_units[ast.unparse(n_.func)]['extra_typed']:
                         if pt not in iparams:
                             iparams.append(pt)
@@ -1115,11 +1254,13 @@ def translate(spec, repo):
             body = tr.block(fn.body, env, 'List Event', None, 1)
             sig = ' '.join(['(%s : %s)' % (lean_name(n_), lean_ty(t)) for (n_, t) in iparams] +
                            ['(%s : %s)' % (lean_name(p_), lean_ty(t)) for p_, t in u['params'].items() if t != 'Opaque'])
-            out.append('/-- the events of `%s.%s` (%s) -/' % (
-                u['class'], u['name'], 'whether the body of its `try` raises %s is an input' % ' / '.join(u['try_handlers'])
-                if u.get('try_handlers') else 'of a `try` statement only the body is translated'))
-            out.append('def %s_%s %s : Option (List Event) :=\n  let trace : List Event := []\n%s\n' % (
-                cls_name(u['class']), u['name'].lstrip('_'), sig, body))
+            out.append('/-- the events of `%s%s` (%s) -/' % (
+                (u['class'] + '.') if u.get('class') else '', u['name'], 'whether the body of its `try` raises %s is an input' % ' / '.join(u['try_handlers'])
+                if u.get('try_handlers') else 'whether the body of its `try ... finally` raises is an input'
+                if u.get('try_finally') else 'of a `try` statement only the body is translated'))
+            out.append('def %s %s : Option (List Event) :=\n  let trace : List Event := []\n%s\n' % (
+                ('%s_%s' % (cls_name(u['class']), u['name'].lstrip('_'))) if u.get('class') else lean_name(u['name'].lstrip('_')),
+                sig, body))
         elif kind == 'call_arg':
             # the n-th argument of the one call of `call` inside the function, as a function of the inputs
             table, iparams = unit_inputs(u)
@@ -1131,9 +1272,83 @@ def translate(spec, repo):
             if ty_ != u['returns']:
                 raise Unsupported('%s: the argument is a %s, spec says %s' % (u['lean_name'], ty_, u['returns']))
             sig = ' '.join('(%s : %s)' % (lean_name(n_), lean_ty(t)) for (n_, t) in iparams)
-            out.append('/-- argument %d of `%s(...)` in `%s.%s` -/' % (u['arg'], u['call'], u.get('class'), u['name']))
-            out.append('def %s %s : Option %s :=\n%s\n' % (u['lean_name'], sig, u['returns'],
+            out.append('/-- argument %d of `%s(...)` in `%s%s` -/' % (
+                u['arg'], u['call'], (u['class'] + '.') if u.get('class') else '', u['name']))
+            out.append('def %s %s : Option %s :=\n%s\n' % (u['lean_name'], sig, lean_ty_atom(u['returns']),
                                                            Fn.wrap(b_, '  some %s' % t_, '  ')))
+        elif kind == 'value':
+            # a function or method that computes a value from declared inputs (readings of self, of other objects and
+            # of calls, by their source text) and its non-opaque parameters
+            want = (['self'] if u.get('class') else []) + list(u['params'])
+            if got != want:
+                raise Unsupported('signature of %s is %s, spec says %s' % (u['name'], got, want))
+            table, iparams = unit_inputs(u)
+            tr = Fn(spec, records, funcs, dict(ctx, cls=None, inputs=table))
+            env = dict((p_, t) for p_, t in u['params'].items() if t != 'Opaque')
+            body = tr.block(fn.body, env, u['returns'], None, 1)
+            sig = ' '.join(['(%s : %s)' % (lean_name(n_), lean_ty(t)) for (n_, t) in iparams] +
+                           ['(%s : %s)' % (lean_name(p_), lean_ty(t)) for p_, t in u['params'].items() if t != 'Opaque'])
+            out.append('def %s %s : Option %s :=\n%s\n' % (
+                ('%s_%s' % (cls_name(u['class']), u['name'].lstrip('_'))) if u.get('class') else lean_name(u['name'].lstrip('_')),
+                sig, u['returns'], body))
+        elif kind == 'retry_loop':
+            # `<state> = <int>`...; `while True: try: <one call>; return ... except A: ... except (B, C) as e: ...`:
+            # a function of what the successive calls do (`outcome k`: which handler's class is raised, "" = returns,
+            # and the declared readings of the exception).  A handler either returns or falls off its end, which
+            # starts the next iteration with the current state.  `fuel` bounds the number of iterations (`none`).
+            want = (['self'] if u.get('class') else []) + list(u['params'])
+            if got != want:
+                raise Unsupported('signature of %s is %s, spec says %s' % (u['name'], got, want))
+            stmts = [s_ for s_ in fn.body if not (isinstance(s_, ast.Expr) and isinstance(s_.value, ast.Constant))]
+            state = []
+            while stmts and isinstance(stmts[0], ast.Assign) and len(stmts[0].targets) == 1 \
+                    and isinstance(stmts[0].targets[0], ast.Name) and isinstance(stmts[0].value, ast.Constant) \
+                    and isinstance(stmts[0].value.value, int) and not isinstance(stmts[0].value.value, bool):
+                state.append((stmts[0].targets[0].id, stmts[0].value.value))
+                stmts = stmts[1:]
+            if len(stmts) != 1 or not isinstance(stmts[0], ast.While) or stmts[0].orelse \
+                    or not (isinstance(stmts[0].test, ast.Constant) and stmts[0].test.value is True) \
+                    or len(stmts[0].body) != 1 or not isinstance(stmts[0].body[0], ast.Try):
+                raise Unsupported('%s is not `while True: try: ...`' % u['name'])
+            t_ = stmts[0].body[0]
+            if t_.orelse or t_.finalbody or not t_.body or not (isinstance(t_.body[0], ast.Assign)
+                                                                and ast.unparse(t_.body[0].value.func) == u['attempt']):
+                raise Unsupported('%s: the try does not start with %s' % (u['name'], u['attempt']))
+            fields = [(d_['field'], d_['type']) for d_ in u.get('attempt_inputs', {}).values()]
+            table = dict((text, ('(outcome k).%s' % d_['field'], d_['type'])) for text, d_ in u.get('attempt_inputs', {}).items())
+            lname = ('%s_%s' % (cls_name(u['class']), u['name'].lstrip('_'))) if u.get('class') else lean_name(u['name'].lstrip('_'))
+            tr = Fn(spec, records, funcs, dict(ctx, cls=None, inputs=table, trace={
+                'events': events, 'ignore_locals': set(u.get('ignore_locals', [])) | {t_.body[0].targets[0].id},
+                'ignore_calls': set(u.get('ignore_calls', [])), 'ignore_fields': set(),
+                'return_events': u.get('return_events', {}), 'units': {}}))
+            env = dict((n_, 'V') for n_, _v in state)
+            names = ' '.join(lean_name(n_) for n_, _v in state)
+            tr.fall = '%s_loop outcome fuel (k + 1) %s trace' % (lname, names)
+            arms = [('', tr.block(list(t_.body[1:]), env, 'List Event', None, 3))]
+            for h in t_.handlers:
+                cls_ = [h.type.id] if isinstance(h.type, ast.Name) else \
+                    [x_.id for x_ in h.type.elts] if isinstance(h.type, ast.Tuple) and all(isinstance(x_, ast.Name) for x_ in h.type.elts) \
+                    else None
+                if not cls_:
+                    raise Unsupported('%s: handler %s' % (u['name'], ast.unparse(h.type) if h.type else 'of everything'))
+                if h.name:
+                    tr.tr['ignore_locals'].add(h.name)
+                arms.append(('|'.join(cls_), tr.block(list(h.body), env, 'List Event', None, 3)))
+            out.append('/-- what one call of `%s` does: the handler clause that catches what it raises ("" = it returns), and\n'
+                       'what that handler reads of the exception -/' % u['attempt'])
+            out.append('structure Attempt where\n  raised : String\n%sderiving Repr, DecidableEq\n' % ''.join(
+                '  %s : %s\n' % (f_, lean_ty(ty_)) for f_, ty_ in fields))
+            chain = '      none'
+            for key_, body_ in reversed(arms):
+                chain = '    if (outcome k).raised = %s then\n%s\n    else\n%s' % (json.dumps(key_), body_, chain)
+            out.append('/-- the loop of `%s`: iteration `k`, the state, the events so far; a handler that neither returns nor raises\n'
+                       'starts the next iteration; an exception no handler names propagates (`none`), as does running out of `fuel` -/' % u['name'])
+            out.append('def %s_loop (outcome : Nat → Attempt) : Nat → Nat → %s → List Event → Option (List Event)\n'
+                       '  | 0, _, %s, _ => none\n  | fuel + 1, k, %s, trace =>\n    let trace := trace ++ [Event.%s]\n%s\n' % (
+                           lname, ' → '.join('V' for _s in state), ', '.join('_' for _s in state), ', '.join(lean_name(n_) for n_, _v in state),
+                           u['attempt_event'], chain))
+            out.append('def %s (outcome : Nat → Attempt) (fuel : Nat) : Option (List Event) :=\n  %s_loop outcome fuel 0 %s []\n' % (
+                lname, lname, ' '.join('(V.int %d)' % v_ for _n, v_ in state)))
         elif kind == 'exit_map':
             # a function whose body is one `try`: what it returns when the body ends normally (as a function of the
             # declared inputs) and when the body raises an exception of a class a handler names.  A handler is
